@@ -250,6 +250,7 @@ package jet
 //@   ensures [unsigned-integers-promote-to-float] {C04} 7 <= RvKind(v) && RvKind(v) <= 11 ==> result == float64(RvUint(v))
 //@ func getTypeString
 //@   props C10 C07 C12
+//@   nopanic
 //@ func isUint
 //@   props C10 C07 C12
 //@   nopanic
@@ -463,10 +464,12 @@ package jet
 //@   anypanic
 //@   exsures [runtime-valid-on-panic] RtX(st)
 //@ func (*Runtime).evalPipeCallExpression
-//@   props C07 C13 C10 C12 C14
+//@   props C07 C13 C10 C12 C14 C18
 //@   requires RtOK(st) && WFArgs(args) && RvKind(baseExpr) == 19
 //@   modifies @Interp, cell pipedArg
-//@   callsite type:Func * requires [a-jet-func-receives-the-unevaluated-arguments-and-the-piped-value] {C14} a.runtime == st && a.args == caller.args && a.pipedVal == caller.pipedArg
+//@   callsite (*Runtime).evalCallExpression count 0 {C14,C18}
+//@   callsite type:Func count 2 {C14,C18}
+//@   callsite type:Func * requires [a-jet-func-receives-the-unevaluated-arguments-and-the-piped-value] {C14,C18} a.runtime == st && a.args == caller.args && a.pipedVal == caller.pipedArg
 //@   callsite (*Runtime).evaluateArgs 0 requires [go-functions-get-their-arguments-from-evaluateargs] {C14} fnType == RvTypeOf(caller.baseExpr) && args == caller.args && pipedArg == caller.pipedArg
 //@   callsite (reflect.Value).Call 0 requires [the-function-is-called-once-with-the-evaluated-arguments] {C14} v == caller.baseExpr && in == lastret("(*Runtime).evaluateArgs", 0)
 //@   callsite (reflect.Value).Call count 1
@@ -698,7 +701,7 @@ package jet
 //@   callsite (*NodeBase).errorf count 1 {C12}
 
 //@ func (*Runtime).executeList
-//@   props C07 C13 C10 C09 C05 C12 C08
+//@   props C07 C13 C10 C09 C05 C12 C08 C18
 //@   requires RtOK(st) && list != nil && WFL(list)
 //@   modifies @Interp
 //@   loop 0 invariant [rt] RtOK(st) && 0 <= i
@@ -723,6 +726,8 @@ package jet
 //@   loop 0 step [an-include-hands-up-the-value-the-included-template-returned] {C09} NTF(list.Nodes[prev(i)]) == NodeInclude ==> returnValue == ite(RvValid(siteret("(*Runtime).executeInclude", 0, 0)), siteret("(*Runtime).executeInclude", 0, 0), prev(returnValue))
 //@   loop 0 step [a-return-statement-sets-the-value-to-its-operand] {C09} NTF(list.Nodes[prev(i)]) == NodeReturn ==> returnValue == ite(RvValid(siteret("(*Runtime).evalPrimaryExpressionGroup", 3, 0)), siteret("(*Runtime).evalPrimaryExpressionGroup", 3, 0), returnedNil)
 //@   loop 0 step [an-executed-return-statement-always-leaves-a-value-behind] {C09} NTF(list.Nodes[prev(i)]) == NodeReturn ==> RvValid(returnValue)
+//@   callsite (*Runtime).evalPrimaryExpressionGroup 1 requires [the-ranged-over-expression-is-evaluated-before-the-loop-scope-is-opened] {C18,C07,C05} ite(caller.inNewScope, st.scope.parent == old(st.scope), st.scope == old(st.scope))
+//@   callsite (*Runtime).evalPrimaryExpressionGroup 2 requires [the-ranged-over-expression-is-evaluated-before-the-loop-scope-is-opened] {C18,C07,C05} ite(caller.inNewScope, st.scope.parent == old(st.scope), st.scope == old(st.scope))
 //@   callsite (*Runtime).evalPrimaryExpressionGroup 3 requires [a-return-statement-evaluates-its-operand] {C09} node == as(caller.list.Nodes[caller.i], "*ReturnNode").Value
 //@   loop 0 step [a-range-hands-its-ranger-back-exactly-once] {C10,C11,C05} ncalls("dynamic:func()") == prev(ncalls("dynamic:func()")) + ite(NTF(list.Nodes[prev(i)]) == NodeRange, 1, 0)
 //@   loop 0 step [if-renders-exactly-one-branch] {C05,C03} NTF(list.Nodes[prev(i)]) == NodeIf ==> ite(lastret("isTrue", 0), visits("(*Runtime).executeList", 0) == prev(visits("(*Runtime).executeList", 0)) + 1 && visits("(*Runtime).executeList", 1) == prev(visits("(*Runtime).executeList", 1)), visits("(*Runtime).executeList", 0) == prev(visits("(*Runtime).executeList", 0)) && visits("(*Runtime).executeList", 1) == prev(visits("(*Runtime).executeList", 1)) + ite(as(list.Nodes[prev(i)], "*IfNode").ElseList != nil, 1, 0))
@@ -754,11 +759,11 @@ package jet
 //@   ensures [list-balanced-writer] st.escapeeWriter.Writer == old(st.escapeeWriter.Writer)
 
 //@ func (*Runtime).executeTry
-//@   props C13 C07 C10 C12
+//@   props C13 C07 C10 C12 C03 C11
 //@   requires RtOK(st) && try != nil && WF(iface(try, "*TryNode"))
 //@   modifies @Interp
 //@   ensures [try-leaves-no-trace] SameS(st)
-//@   callsite (*Runtime).executeList 1 requires [try-body-renders-into-a-fresh-buffer] {C13,C01} st.escapeeWriter.Writer == iface(caller.buf, "*bytes.Buffer") && fresh(caller.buf) && st.escapeeWriter == old(st.escapeeWriter)
+//@   callsite (*Runtime).executeList 1 requires [try-body-renders-into-a-fresh-buffer] {C13,C01,C03,C11,C10} st.escapeeWriter.Writer == iface(caller.buf, "*bytes.Buffer") && fresh(caller.buf) && st.escapeeWriter == old(st.escapeeWriter)
 //@   callsite io.Copy 0 requires [buffer-copied-only-after-success] {C13} dst == old(st.escapeeWriter.Writer) && src == iface(caller.buf, "*bytes.Buffer") && !panicking()
 //@   callsite io.Copy count 1
 //@   callsite (*Runtime).executeList * requires [the-catch-body-runs-in-a-scope-of-its-own-holding-the-error] {C13,C07} list != caller.try.List && caller.try.Catch.Err != nil ==> st.scope.parent == old(st.scope) && has(st.scope.variables, caller.try.Catch.Err.Ident)
@@ -836,21 +841,21 @@ package jet
 //@   inline
 
 //@ func (*Template).Execute
-//@   props C10 C08 C12 C07 C01 C05
+//@   props C10 C08 C12 C07 C01 C05 C17 C11
 //@   anypanic
 //@   requires t != nil && t.set != nil && t.set.gmx != nil && SetOK(t.set) && w != nil && TplOK(t)
 //@   modifies @Interp, type Runtime.escapeeWriter, type escapeeWriter.set, type scope.blocks, type scope.variables, type scope.parent
 //@   loop 0 invariant [root-walk] t != nil && TplOK(t) && RootOf(t) == RootOf(old(t))
-//@   callsite (*sync.Pool).Put * requires [pool-invariant-at-put] {C10,C05,C07} p == gaddr(pool_State) && istype(x, "*Runtime") && PoolInv(as(x, "*Runtime"))
+//@   callsite (*sync.Pool).Put * requires [pool-invariant-at-put] {C10,C05,C07,C17,C11} p == gaddr(pool_State) && istype(x, "*Runtime") && PoolInv(as(x, "*Runtime"))
 //@   callsite (*Runtime).executeList 0 requires [extends-renders-root-ancestor] list == RootOf(caller.t).Root
 //@   callsite (*Runtime).executeList 0 requires [values-are-escaped-by-the-executed-templates-own-set] {C01} st.escapeeWriter.set == caller.t.set && st.escapeeWriter.Writer == caller.w
-//@   callsite (*Runtime).executeList 0 requires [execution-state-determined-by-inputs] {C10,C05,C07,C11} st.scope.blocks == caller.t.processedBlocks && st.scope.variables == caller.variables && st.scope.parent == nil && st.escapeeWriter.set == caller.t.set && st.escapeeWriter.Writer == caller.w && st.content == nil && ite(caller.data != nil, st.context == RvOf(caller.data), !RvValid(st.context))
+//@   callsite (*Runtime).executeList 0 requires [execution-state-determined-by-inputs] {C10,C05,C07,C11,C17} st.scope.blocks == caller.t.processedBlocks && st.scope.variables == caller.variables && st.scope.parent == nil && st.escapeeWriter.set == caller.t.set && st.escapeeWriter.Writer == caller.w && st.content == nil && ite(caller.data != nil, st.context == RvOf(caller.data), !RvValid(st.context))
 //@   callsite (*Runtime).executeList count 1
 
 // ---- exec / includeIfExists built-ins (default.go) ---------------------------------------------------------
 
 //@ func init#1$4
-//@   props C09 C07 C01 C12
+//@   props C09 C07 C01 C12 C08
 //@   requires RtOK(a.runtime) && WFArgs(a.args)
 //@   modifies @Interp
 //@   loop 0 invariant [root-walk] RtOK(a.runtime) && t != nil && TplOK(t) && RootOf(t) == RootOf(lastret("(*Set).GetTemplate", 0)) && root == t.Root && a.runtime.scope.blocks == lastret("(*Set).GetTemplate", 0).processedBlocks && a.runtime.scope.parent == old(a.runtime.scope) && a.runtime.content == old(a.runtime.content) && a.runtime.context == old(a.runtime.context) && deferred(0) && deferred(1) && a.runtime.escapeeWriter.Writer == ioutil.Discard && w == old(a.runtime.escapeeWriter.Writer)
@@ -861,7 +866,7 @@ package jet
 //@   callsite (*Runtime).executeList 0 requires [exec-discards-output] st.escapeeWriter.Writer == ioutil.Discard
 //@   callsite returned 0 requires [exec-evaluates-to-what-the-root-list-returned] {C09} v == lastret("(*Runtime).executeList", 0)
 //@   check [exec-evaluates-to-what-the-root-list-returned] {C09} result == lastret("returned", 0)
-//@   callsite (*Runtime).executeList 0 requires [exec-runs-root-with-its-blocks] list == RootOf(lastret("(*Set).GetTemplate", 0)).Root && st.scope.blocks == lastret("(*Set).GetTemplate", 0).processedBlocks && st.scope.parent == old(a.runtime.scope)
+//@   callsite (*Runtime).executeList 0 requires [exec-runs-root-with-its-blocks] {C08,C09} list == RootOf(lastret("(*Set).GetTemplate", 0)).Root && st.scope.blocks == lastret("(*Set).GetTemplate", 0).processedBlocks && st.scope.parent == old(a.runtime.scope)
 //@   callsite (*Runtime).executeList count 1
 //@   anypanic
 //@   exsures [runtime-valid-on-panic] RtX(a.runtime)
